@@ -5,14 +5,32 @@ export, and re-exports the counter of its first dependency (live bindings throug
 Import kinds (named / namespace / default+named) and equivalent spellings of the same path are chosen per edge."""
 import random
 
-SPELLINGS = ["./m{d}.ts", "././m{d}.ts", "./x/../m{d}.ts", "../p/m{d}.ts", "./x/y/../../m{d}.ts", ".//m{d}.ts", "/p/m{d}.ts", "/p/./x/../m{d}.ts"]
+BASE = "/p/"     # directory of the module files; set by gen_sources ("/" = directly under the root, "/a/b/" = nested)
+
+
+def spellings():
+    s = ["./m{d}.ts", "././m{d}.ts", "./x/../m{d}.ts", "./x/y/../../m{d}.ts", ".//m{d}.ts", BASE + "m{d}.ts", BASE + "./x/../m{d}.ts", "./lib/../m{d}.ts"]
+    if BASE != "/":
+        last = BASE.rstrip("/").rsplit("/", 1)[-1]
+        s.append("../" + last + "/m{d}.ts")
+    return s
 
 
 def spell(rnd, d, plain=False):
-    return (SPELLINGS[0] if plain else rnd.choice(SPELLINGS)).format(d=d)
+    return ("./m{d}.ts" if plain else rnd.choice(spellings())).format(d=d)
 
 
-def gen_sources(deps, rnd, plain=False):
+def hops(deps, m):
+    """length of the first-dependency chain below m (m -> deps[m][0] -> ...)"""
+    k = 0
+    while deps[m]:
+        m = deps[m][0]; k += 1
+    return k
+
+
+def gen_sources(deps, rnd, plain=False, base="/p/"):
+    global BASE
+    BASE = base
     n = len(deps) - 1
     src = {}
     for m in range(1, n + 1):
@@ -31,7 +49,13 @@ def gen_sources(deps, rnd, plain=False):
         lines.append("export const v: number = %s;" % " + ".join([str(m)] + terms))
         lines.append("export default v;")
         if deps[m]:
-            lines.append('export { cnt as rcnt, bump as rbump } from "%s";' % spell(rnd, deps[m][0], plain))
+            d0 = deps[m][0]
+            lines.append('export { cnt as rcnt, bump as rbump } from "%s";' % spell(rnd, d0, plain))
+            # longer re-export chains: r2cnt of m is rcnt of its first dependency (two hops), r3cnt three hops
+            if hops(deps, d0) >= 1:
+                lines.append('export { rcnt as r2cnt, rbump as r2bump } from "%s";' % spell(rnd, d0, plain))
+            if hops(deps, d0) >= 2:
+                lines.append('export { r2cnt as r3cnt, r2bump as r3bump } from "%s";' % spell(rnd, d0, plain))
         src[m] = "\n".join(lines) + "\n"
     lines = []; terms = []; body = []
     for d in deps[0]:
@@ -50,6 +74,14 @@ def gen_sources(deps, rnd, plain=False):
         if deps[d]:
             lines.append('import { rcnt as rcnt%d, rbump as rbump%d } from "%s";' % (d, d, spell(rnd, d, plain)))
             body.append("{ const b = rcnt%d; rbump%d(); rbump%d(); live.push(rcnt%d - b); }" % (d, d, d, d))
+            for h in (2, 3):
+                if hops(deps, d) >= h:
+                    if plain or rnd.random() < 0.5:
+                        lines.append('import { r%dcnt as r%dcnt%d, r%dbump as r%dbump%d } from "%s";' % (h, h, d, h, h, d, spell(rnd, d, plain)))
+                        body.append("{ const b = r%dcnt%d; r%dbump%d(); r%dbump%d(); live.push(r%dcnt%d - b); }" % (h, d, h, d, h, d, h, d))
+                    else:
+                        lines.append('import * as nsr%d_%d from "%s";' % (h, d, spell(rnd, d, plain)))
+                        body.append("{ const b = nsr%d_%d.r%dcnt; nsr%d_%d.r%dbump(); nsr%d_%d.r%dbump(); live.push(nsr%d_%d.r%dcnt - b); }" % (h, d, h, h, d, h, h, d, h, h, d, h))
     lines.append('console.log("LOAD 0");')
     lines.append("const live: number[] = [];")
     lines += body
